@@ -81,19 +81,22 @@ CHECKS = {
     },
     "C08": {
         "text": "'Physically executable' is defined by an AOD simulator (Model.Aod: trap sites, occupancy, held atoms, tone positions; refuses a "
-                "spot lit off a trap site, a release onto a non-site or an occupied site, a jump of tones while atoms are held, a waypoint of the wrong "
-                "dimensions and a switch before any waypoint). PROVED about it for ALL site sets, occupancies and path lists: every accepted run "
-                "conserves the multiset of atoms (none lost, none duplicated); every accepted switch-off releases onto vacant trap sites; every "
-                "accepted switch-on lights spots only on trap sites; a run whose first waypoint differs from the tones of held atoms is refused, and so "
-                "is a wrong-dimension waypoint. DECIDED BY ENUMERATION (not by a theorem about the kernels): every library move - single-zone CZ "
-                "(single_col_zone and stdlib.moves), two_col_zone.rearrange, move_by_waypoints, gemini.logical vertical_shift and gr_zero_to_one - is "
-                "run on the layout its module builds for all layout sizes/spacings and all index lists within the stated bounds (plus unsorted, "
-                "duplicate, out-of-range, negative, empty lists); each accepted call's played paths go through the simulator with the compatible "
-                "occupancy; valid input must be accepted, executable and end where the docstring says, invalid input must be rejected or still be "
-                "executable. The Gallina simulator is run by vm_compute on the same paths and must print the same verdict and final occupancy as the "
-                "Python simulator used for the enumeration.",
-        "note": NOTE_COMMON + " The library kernels themselves are executed (kirin interpreter), not modelled in Coq: the all-inputs claim for them is exhaustive only within the enumerated bounds. The simulator is this development's definition of executability (no such oracle exists in the repo).",
-        "technique": "Coq theorems over an AOD simulator model (conservation/acceptance invariants by induction over paths) + exhaustive bounded enumeration of library calls + vm_compute correspondence of the two simulators",
+                "spot lit off a trap site, a release onto a non-site or an occupied site, a jump of tones while atoms are held, two lit tones of one "
+                "axis at the same coordinate, a waypoint of the wrong dimensions and a switch before any waypoint). PROVED for ALL site sets, "
+                "occupancies and path lists: every accepted run conserves the atoms (none lost, none duplicated); accepted releases are onto vacant "
+                "trap sites; accepted spots light up on trap sites; lit tweezers never coincide; jumps while holding and wrong dimensions are "
+                "refused. PROVED for the CZ move, for ALL grid sizes, coordinates, waypoint lists, trap sets and occupancies: a run of the round-trip "
+                "shape (pick everything up on a grid of trap sites, travel along any waypoints, travel back along the reversed list, release) is "
+                "accepted and leaves every site holding the atom it held before; that the library's CZ moves (single_col_zone.cz_move, "
+                "stdlib.moves.default_move_cz) play exactly this shape is decided per call by a recogniser evaluated in Coq on every enumerated valid "
+                "call. DECIDED BY ENUMERATION for the other moves (two_col_zone.rearrange, move_by_waypoints incl. multi-leg transports and the "
+                "meaning of the pick/drop flags, gemini.logical vertical_shift and gr_zero_to_one) and for invalid inputs: run on the layout the module "
+                "builds for all layout sizes/spacings and index lists within the stated bounds (plus unsorted, duplicate, out-of-range, negative, "
+                "empty lists); each accepted call's played paths go through the simulator with the compatible occupancy; valid input must be "
+                "accepted, executable and end where the docstring says, invalid input must be rejected or still be executable. The Gallina "
+                "simulator is run by vm_compute on the same paths and must print the same verdict and final occupancy as the Python simulator.",
+        "note": NOTE_COMMON + " The library kernels are executed (kirin interpreter), not modelled in Coq: for the CZ move the all-inputs claim rests on the theorem plus the per-call shape recognition over the enumerated calls (the kernel is straight-line code, so its shape does not depend on the input); for the other moves it is exhaustive only within the enumerated bounds. The simulator is this development's definition of executability (no such oracle exists in the repo).",
+        "technique": "Coq theorems over an AOD simulator model (conservation/acceptance invariants; parametric round-trip theorem for the CZ move with a verified recogniser) + exhaustive bounded enumeration of library calls + vm_compute correspondence of the two simulators",
     },
     "C09": {
         "text": "Theorems about a model of has_quantum_runtime over an abstraction of the compiled IR: if it answers False then NO execution - any "
